@@ -789,7 +789,7 @@ impl Prop for C01 {
         ]
     }
     fn cases(&self, tier: Tier) -> u32 {
-        tier.pick(200, 3200)
+        tier.pick(500, 3200)
     }
     fn strategy(&self, tier: Tier) -> BoxedStrategy<Case> {
         case_strat(tier.pick(40, 120), 6, 1)
@@ -942,7 +942,7 @@ impl Prop for C02 {
         ]
     }
     fn cases(&self, tier: Tier) -> u32 {
-        tier.pick(200, 3200)
+        tier.pick(500, 3200)
     }
     fn strategy(&self, tier: Tier) -> BoxedStrategy<Case> {
         case_strat(tier.pick(40, 120), 30, 4)
